@@ -84,6 +84,24 @@ REGISTRY = {
                 "Non-trivial: the failing patch is not the first of the run, or it has several file entries; distinct by (workspace shape, configuration).",
         "floor": floors(("failing-patch-not-first", 100), ("multi-file-failing-patch", 100), ("runs-applying-everything", 100)),
     },
+    "C06": {
+        "level_text": "differential: the same workspace pushed single-threaded and with N threads, naturally and under forced schedules (hook gates) that enumerate the run-ahead depth of the workers relative to the failing patch and perturb the save phase; tree, .pc, rejects, exit status compared; the realised interleaving is read back from the hook trace",
+        "level_note": "trusted: hook gates only delay threads at points where the OS could deschedule them; schedules below file-patch / file-operation granularity are left to the OS; thorough adds ThreadSanitizer",
+        "technique": "runtime monitoring: forced-schedule stress (hook gates) + differential oracle + offline trace checker; TSan in thorough",
+        "parts": [K.cli_c06],
+        "rule": "series with renames / creates / deletes spread over several workers and a failing patch at a random position, threads 2/3/4/8/16, backup modes, -q/default, 10% dry-run; per workspace: one natural traced run, "
+                "then no-run-ahead, full-run-ahead, one intermediate depth and two random-delay schedules derived from the trace. Non-trivial/distinct: (workspace, thread count, realised interleaving signature = sorted run-ahead depth vector + unroll counts).",
+        "floor": floors(("parallel-runs-compared", 1000), ("runs-with-run-ahead", 100), ("schedule:no-run-ahead", 50), ("schedule:full-run-ahead", 50), ("run-ahead-file-patches-unrolled", 100)),
+    },
+    "C07": {
+        "level_text": "the real FilenameDistributor is driven (hook sub-command) over every canonical sequence of pairs within the bound and random longer ones and its map is compared with an independent union-find; in real parallel pushes the hook trace must show every file loaded by one apply worker and saved by one save worker",
+        "level_note": "trusted: the verif-distribute driver passes pairs unchanged to FilenameDistributor::add/build; union-find in lib/cliprops.py",
+        "technique": "runtime monitoring: exhaustive + random driving of the real component with a closure oracle; trace invariant over real runs",
+        "parts": [K.cli_c07],
+        "rule": "(1) every sequence of <= 5 (quick) / 6 (thorough) pairs over <= 5 names up to renaming x threads 2,3,4,7,16, plus random sequences of <= 40 pairs over <= 12 names with repeats; "
+                "(2) rename-heavy series pushed with 2..16 threads with the trace on. Non-trivial: >= 2 relating pairs (closure), chains of >= 3 names (trace).",
+        "floor": floors(("sequences-checked", 10000), ("components-of>=3-names", 1000), ("files-with-load-events", 1000), ("runs-with-chains-of>=3-names", 50)),
+    },
     "C08": {
         "level_text": "backup files and applied-patches of real pushes are compared entry by entry with the pre-patch states known by construction, then popped in simulation",
         "level_note": "trusted: wsgen ground truth; zero-length-vs-absent ambiguity of the quilt backup format is not asserted",
